@@ -340,3 +340,96 @@ def returned_values(f):
             else:
                 out.append((v, bn, t))
     return out
+
+
+ALLOCATOR_FIELD_USERS = {
+    "YaepAllocator.malloc": ["yaep_malloc", "yaep_calloc"],
+    "YaepAllocator.calloc": ["yaep_calloc"],
+    "YaepAllocator.realloc": ["yaep_realloc"],
+    "YaepAllocator.free": ["yaep_free", "yaep_alloc_del"],
+    "YaepAllocator.alloc_error": ["yaep_malloc", "yaep_calloc", "yaep_realloc"],
+}
+
+
+def rule_allocator_discipline(ctx, rep, config="c-lib"):
+    rep.rule("R3f", "who may call: each function pointer of the allocator object is called only by its wrapper (free only by yaep_free / yaep_alloc_del, so a failing "
+                    "yaep_malloc/calloc/realloc never releases anything before it raises the error), and in a wrapper the error hook is called only under `result == NULL'")
+    from .r5 import _controlling_conditions
+    p = ctx.prog(config)
+    m = p.m
+    n = 0
+    for f in m.defined():
+        for i in f.calls():
+            if i.callee:
+                continue
+            lp = loaded_from(f, i.d["callee_op"])
+            fld = lp.last_field() if lp is not None else None
+            if fld is None:
+                # pointer taken earlier into a local (yaep_alloc_del: freef = allocator->free)
+                o = strip_casts(f, i.d["callee_op"])
+                oi = f.inst(o)
+                if oi is not None and oi.op == "phi":
+                    continue
+                continue
+            if fld not in ALLOCATOR_FIELD_USERS:
+                continue
+            n += 1
+            key = "%s/calls-%s" % (f.name, fld.split(".")[1])
+            if f.name in ALLOCATOR_FIELD_USERS[fld]:
+                ok = True
+                if fld.endswith("alloc_error"):
+                    # raised only when the request failed
+                    conds = _controlling_conditions(f, i.block.name)
+                    ok = any(c.d["pred"] in ("eq", "ne") and (c.ops[1].get("k") == "null" or c.ops[0].get("k") == "null") and ((c.d["pred"] == "eq") == pol) for (c, pol) in conds)
+                if ok:
+                    rep.ok("R3f", key, sample={"site": i.where()})
+                else:
+                    rep.violation("R3f", key, "%s raises the allocation error although the request did not fail" % f.name, where=i.where())
+            else:
+                rep.violation("R3f", key, "%s calls the allocator's `%s' function: only %s may (a failing request must leave the caller's block untouched -- the error is "
+                                          "raised by longjmp and the owner still refers to it)" % (f.name, fld.split(".")[1], ", ".join(ALLOCATOR_FIELD_USERS[fld])),
+                              where=i.where(), witness=[i.where()])
+    rep.floor("R3f", "calls through the allocator's function pointers", n, 9)
+
+
+def rule_R3e(ctx, rep, config="c-lib"):
+    rep.rule("R3e", "(un-promoted IR, so that locals are still memory) in a function that calls setjmp, an automatic variable that is stored after the setjmp call and "
+                    "loaded in the `setjmp != 0' handler before being stored again is indeterminate after longjmp unless it is volatile (ISO C 7.13.2.1): every such load "
+                    "must be a volatile access")
+    p = ctx.prog(config + "-raw")
+    m = p.m
+    n = 0
+    for f in m.defined():
+        sjs = p.setjmp_calls(f)
+        if not sjs:
+            continue
+        rep.cover(p, [f.name])
+        for sj in sjs:
+            h, nn = setjmp_regions(f, sj)
+            hblocks = set(b.name for b in f.rblocks() if f.dominates(h, b.name))
+            ablocks = set(b.name for b in f.rblocks() if f.dominates(nn, b.name))
+            for a in f.all_insts():
+                if a.op != "alloca":
+                    continue
+                st_after = [u for u in f.uses().get(a.id, []) if u.op == "store" and u.ops[1].get("k") == "i" and u.ops[1]["v"] == a.id and u.block.name in ablocks]
+                if not st_after:
+                    continue
+                for ld in [u for u in f.uses().get(a.id, []) if u.op == "load" and u.block.name in hblocks]:
+                    # a store that re-defines the variable after the second return and dominates the load?
+                    redefined = False
+                    for s in [u for u in f.uses().get(a.id, []) if u.op == "store" and u.ops[1].get("k") == "i" and u.ops[1]["v"] == a.id]:
+                        after_sj = (s.block is sj.block and s.idx > sj.idx) or s.block.name in hblocks
+                        if after_sj and f.inst_dominates(s, ld) and s.block.name not in ablocks:
+                            redefined = True
+                    if redefined:
+                        continue
+                    n += 1
+                    var = a.d.get("var") or a.d.get("name") or "local"
+                    key = "%s/%s" % (f.name, var)
+                    if ld.d.get("volatile"):
+                        rep.ok("R3e", key, sample={"function": f.name, "variable": var, "modified_after_setjmp": st_after[0].where(), "read_in_handler": ld.where(), "volatile": True})
+                    else:
+                        rep.violation("R3e", key, "`%s' is modified after setjmp and read in the error exit but is not volatile: after longjmp its value is indeterminate "
+                                                  "(gcc -O2 reads the value it had at the setjmp call, so the cleanup it guards is skipped or done twice)" % var,
+                                      where=ld.where(), witness=[st_after[0].where(), ld.where()])
+    rep.floor("R3e", "locals modified after setjmp and read in a handler", n, 3)
